@@ -1,6 +1,16 @@
 """Per-property metadata used by the runner (levels, explanations)."""
 
 PROPS = {
+    "C01": {
+        "level": "other",
+        "explanation": "refinement wiring decided on all paths: every Ok exit of a mutating entry point is either "
+                       "behind the apply step or mutation-free (and reports accordingly), the apply body performs the "
+                       "BTreeMap operation the op denotes with the transaction's own key/hash/size (taint), reads "
+                       "resolve by copy-only chains through BTreeMap::get, the read view hands out the map's own "
+                       "iterators, closed world",
+        "not_decided": "equality of results with a model over histories; BTreeMap itself; byte contents (C04, C06, "
+                       "C18); aborts (C13)",
+    },
     "C02": {
         "level": "other",
         "explanation": "restart wiring decided on all paths: every live index mutation is behind the append of its "
